@@ -17,7 +17,7 @@ EXPLANATION = (
     "handles); PANIC-TAB (remaining sites: a table keyed by function and kind with the exact number of sites and the invariant that discharges "
     "them; a new or additional site is a violation). PANIC-NUM: numeral / arity text is converted with parse().unwrap() although the grammar does "
     "not bound the digits (known finding). FLOW-ERR: in main every fallible step (file sorting, parsing, decompose, writing problems) is propagated "
-    "with `?`. SHARED: the regularity and p2f obligations of C08 discharge the expects of natural_head_interval; the call-site table of C17 (with the subsort table) discharges the panics of GeneralTerm::substitute.")
+    "with `?`. SHARED: the regularity and p2f obligations of C08 discharge the expects of natural_head_interval; the call-site table of C17 (with the subsort table) discharges the panics of GeneralTerm::substitute. SHARED: the chain obligations of C12 discharge the `s[0]`, `s[1]` index sites of Display for Problem.")
 UNDECIDED = ["stack exhaustion on deeply nested input", "hangs other than rule RW-3 (C18)", "panics inside dependencies reached only through library calls (pest, clap, regex, petgraph, indexmap)"]
 ASSUMPTIONS = ["pest produces exactly the pair structure its grammar describes", "debug-build overflow checks are the stricter case"]
 
